@@ -383,11 +383,22 @@ func (dm *DMap) put(e *env) error {
 	}
 
 	// Redirect to the partition owner.
+	rc := dm.s.client.Get(member.String())
+	if e.putConfig.OnlyUpdateTTL {
+		// This is an Expire call. A Put command cannot carry it: the owner would
+		// overwrite the value with an empty one and drop the timeout.
+		cmd := protocol.NewPExpire(e.dmap, e.key, e.timeout).Command(dm.s.ctx)
+		err := rc.Process(e.ctx, cmd)
+		if err != nil {
+			return protocol.ConvertError(err)
+		}
+		return protocol.ConvertError(cmd.Err())
+	}
+
 	cmd, err := dm.writePutCommand(e)
 	if err != nil {
 		return err
 	}
-	rc := dm.s.client.Get(member.String())
 	err = rc.Process(e.ctx, cmd)
 	if err != nil {
 		return protocol.ConvertError(err)
